@@ -57,7 +57,14 @@ func VerifC09_PutGetModel() {
 		k := len(ref.certs)
 		nextI := ref.next()
 		good := verifCert(nextI, int64(10*k), 2, ref.tables[k], verifTableSeq(k+1))
-		switch sym.Choice("op", 7) {
+		switch sym.Choice("op", 8) {
+		case 7: // valid successor that leaves the table unchanged (empty delta)
+			sym.Cover("put-successor-same-table")
+			same := verifCert(nextI, int64(10*k), 2, ref.tables[k], ref.tables[k])
+			err := cs.Put(ctx, same)
+			sym.Assert(err == nil && len(same.PowerTableDelta) == 0, "successor-with-unchanged-table-admitted")
+			ref.certs = append(ref.certs, same)
+			ref.tables = append(ref.tables, ref.tables[k])
 		case 0: // valid successor
 			sym.Cover("put-successor")
 			err := cs.Put(ctx, good)
@@ -82,7 +89,16 @@ func VerifC09_PutGetModel() {
 		case 3: // wrong delta / CID mismatch
 			sym.Cover("put-wrong-delta")
 			bad := verifCert(nextI, int64(10*k), 2, ref.tables[k], verifTableSeq(k+1))
-			bad.PowerTableDelta = certs.MakePowerTableDiff(ref.tables[k], verifTableSeq(k+2))
+			switch sym.Choice("mismatch", 4) {
+			case 0: // delta leads to another table than the committed one
+				bad.PowerTableDelta = certs.MakePowerTableDiff(ref.tables[k], verifTableSeq(k+2))
+			case 1: // no delta, but a changed table committed
+				bad.PowerTableDelta = nil
+			case 2: // right delta, another table committed
+				bad.SupplementalData.PowerTable, _ = certs.MakePowerTableCID(verifTableSeq(k + 2))
+			default: // a delta, but the unchanged table committed
+				bad.SupplementalData.PowerTable, _ = certs.MakePowerTableCID(ref.tables[k])
+			}
 			err := cs.Put(ctx, bad)
 			sym.Assert(err != nil, "wrong-delta-rejected")
 		case 4: // bottom chain
